@@ -41,6 +41,15 @@ def run_case(c):
             o["surr"] = [int(round(v)) for v in surr[0]]
             o["twins2"] = [[int(v) for v in t] for t in tw[1]]
             o["surr2"] = [int(round(v)) for v in surr[1]]
+            # the same promise made by RecurrencePlot.twins / twin_surrogates (first series)
+            from pyunicorn.timeseries import RecurrencePlot
+            rp = RecurrencePlot(np.array(c["x"], dtype=float), dim=c["dim"], tau=1, metric="supremum",
+                                threshold=8.0, silence_level=3)
+            n = rp.N
+            o["rp_twins"] = [sorted(int(v) for v in t) for t in rp.twins(min_dist=c["md"])[:n]]
+            ts = rp.twin_surrogates(n_surrogates=2, min_dist=c["md"])
+            o["rp_surr"] = [int(round(v)) for v in ts[1, :, 0]]
+            o["rp_shape"] = [int(v) for v in ts.shape]
     except Exception as ex:
         o["exc"] = type(ex).__name__
     rec["obs"] = o
